@@ -432,3 +432,17 @@ Proof.
   cbv zeta. rewrite gen_from_squares_for1. cbn [bind].
   rewrite (gen_flat_count_eq cfg Hp), (gen_capstone_count_eq cfg Hc). cbn. reflexivity.
 Qed.
+
+(* ====================== Position.from_config ====================== *)
+Lemma map_const_range {A} (x : A) n : map (fun _ => x) (py_range n) = repeat x (Z.to_nat n).
+Proof. unfold py_range. rewrite map_map. induction (seq 0 (Z.to_nat n)) as [|a l IH] eqn:E in |- *.
+  - rewrite <- (seq_length (Z.to_nat n) 0), E. reflexivity.
+  - rewrite <- (seq_length (Z.to_nat n) 0), E. cbn. f_equal.
+    clear. induction l as [|b l IH]; cbn; [reflexivity|]. f_equal. exact IH.
+Qed.
+
+Theorem gen_from_config_eq cfg : config_ok cfg -> GameGen.from_config cfg = Ok (from_config cfg).
+Proof.
+  intros (Hp & Hc). unfold GameGen.from_config, from_config. cbv zeta.
+  rewrite (gen_flat_count_eq cfg Hp), (gen_capstone_count_eq cfg Hc). cbn [bind ret]. rewrite map_const_range. reflexivity.
+Qed.
